@@ -24,6 +24,7 @@ PROPS = {
     "C10": "harness.corr_layers",
     "C11": "harness.corr_shuffle",
     "C20": "harness.corr_digraph",
+    "C07": "harness.corr_channel",
 }
 
 TRUSTED_BASE = [
